@@ -635,6 +635,17 @@ theorem cop_emod {a n : Int} (h : IsCoprime a n) : IsCoprime (a % n) n :=
 
 theorem cop_one (n : Int) : IsCoprime 1 n := isCoprime_one_left
 
+/-- a non-negative unit modulo `n > 1` is positive (`0` is not a unit) -/
+theorem pos_of_cop {x n : Int} (hn : 1 < n) (h : IsCoprime x n) (h0 : 0 ≤ x) : 0 < x := by
+  rcases h0.lt_or_eq with h1 | h1
+  · exact h1
+  · subst h1
+    rcases Int.isUnit_iff.1 (isCoprime_zero_left.1 h) with h2 | h2 <;> omega
+
+/-- the reduced residue of a unit modulo `n > 1` lies in `(0, n)`: what `pow_mod` returns for a unit base. -/
+theorem emod_unit_reduced {x n : Int} (hn : 1 < n) (h : IsCoprime x n) : 0 < x % n ∧ x % n < n :=
+  ⟨pos_of_cop hn (cop_emod h) (Int.emod_nonneg _ (by omega)), Int.emod_lt_of_pos _ (by omega)⟩
+
 theorem cop_getD {bases : List Int} {N : Int} (h : ∀ a ∈ bases, Int.gcd a N = 1) (i : Nat) :
     IsCoprime (bases.getD i 1) N := by
   rw [List.getD_eq_getElem?_getD]
@@ -1024,7 +1035,7 @@ theorem prodPow_run (hA : ArithOK) {N : Int} {bases msgs : List Int} (hN : 0 < N
 theorem verifyMultiattr_run (hA : ArithOK) (cs : Suite) (σ : Signature) (pk : PublicKey)
     (bases msgs : List Int) (hN : 0 < pk.N) (hb : msgs.length ≤ bases.length)
     (hm : ∀ m ∈ msgs, 0 ≤ m ∧ m < 2 ^ cs.lm) (he : 2 ^ (cs.le - 1) < σ.e ∧ σ.e < 2 ^ cs.le)
-    (hs : 0 ≤ σ.s) (s : List Draw) :
+    (hv : 0 < σ.v ∧ σ.v < pk.N) (hs : 0 ≤ σ.s) (s : List Draw) :
     ∃ x, x ≡ rep bases msgs (List.range msgs.length) [ZMOD pk.N] ∧ 0 ≤ x ∧
       verifyMultiattr cs σ pk bases msgs s =
         .ok (σ.v ^ σ.e.toNat % pk.N == tmod (x * (pk.b ^ σ.s.toNat % pk.N) * pk.c) pk.N, s) := by
@@ -1040,7 +1051,7 @@ theorem verifyMultiattr_run (hA : ArithOK) (cs : Suite) (σ : Signature) (pk : P
     intro m hmm
     have := hm m hmm
     simp only [decide_eq_true_eq]; omega
-  rw [hany, if_neg Bool.false_ne_true, if_neg (by omega)]
+  rw [hany, if_neg Bool.false_ne_true, if_neg (by omega), if_neg (by omega)]
   rfl
 
 /-! ## 9. The `e` loop and the issuer's computation -/
@@ -1325,8 +1336,9 @@ theorem verifySameSecret_tapeFree (E F g1 h1 g2 h2 n : Int) (π : ProofSs) :
     TapeFree (verifySameSecret E F g1 h1 g2 h2 n π) := by
   unfold verifySameSecret; repeat tf_step
 
-theorem verifyOfSquare_tapeFree (π : ProofOfS) (g h n : Int) : TapeFree (verifyOfSquare π g h n) :=
-  verifySameSecret_tapeFree _ _ _ _ _ _ _ _
+theorem verifyOfSquare_tapeFree (π : ProofOfS) (g h n : Int) : TapeFree (verifyOfSquare π g h n) := by
+  unfold verifyOfSquare
+  exact TapeFree.ite _ (TapeFree.pure _) (verifySameSecret_tapeFree _ _ _ _ _ _ _ _)
 
 theorem verifyLargeIntervalSpecific_tapeFree (π : ProofLi) (E g h n : Int) (t l : Nat) (b : Int) :
     TapeFree (verifyLargeIntervalSpecific π E g h n t l b) := by
@@ -1356,6 +1368,7 @@ theorem rangeVerify_tapeFree (cs : Suite) (π : RangeProof) (g h n lo hi : Int) 
     TapeFree (rangeVerify cs π g h n lo hi) := by
   unfold rangeVerify
   refine TapeFree.ite _ TapeFree.panic ?_
+  refine TapeFree.ite _ (TapeFree.pure _) ?_
   dsimp only
   refine TapeFree.bind (TapeFree.pw _ _ _) fun E' => ?_
   exact TapeFree.ite _ (verifyOfToleranceSpecific_tapeFree _ _ _ _ _ _ _ _ _ _) (TapeFree.pure _)
@@ -1565,8 +1578,12 @@ theorem blind_verify_core (hA : ArithOK) (cs : Suite) {pk : PublicKey} {sk : Sec
       (cop_iff.1 hk.hc)
     rw [hbs']; exact cop_emod hbu.pow_left
   have hroot := euler_root hk.hp hk.hq hk.hpq hk.hN hXu he0 hd0 hed
+  have hvr : 0 < (unblindSign β C).v ∧ (unblindSign β C).v < pk.N := by
+    show 0 < β.v ∧ β.v < pk.N
+    rw [hv']
+    exact emod_unit_reduced hN1 hXu.pow_left
   obtain ⟨x, hxe, hx0, hrun⟩ := verifyMultiattr_run hA cs (unblindSign β C) pk bases msgs hN hb hm he
-    (add_nonneg hr0 hrp) s
+    hvr (add_nonneg hr0 hrp) s
   rw [hrun]
   congr 2
   simp only [unblindSign]
@@ -1635,7 +1652,7 @@ theorem verifyMultiattr_true_elim (hA : ArithOK) {cs : Suite} {σ : Signature} {
     {bases msgs : List Int} {t t' : List Draw}
     (h : verifyMultiattr cs σ pk bases msgs t = .ok (true, t')) :
     msgs.length ≤ bases.length ∧ (∀ m ∈ msgs, 0 ≤ m ∧ m < 2 ^ cs.lm) ∧
-      (2 ^ (cs.le - 1) < σ.e ∧ σ.e < 2 ^ cs.le) ∧
+      (2 ^ (cs.le - 1) < σ.e ∧ σ.e < 2 ^ cs.le) ∧ (0 < σ.v ∧ σ.v < pk.N) ∧
       ∃ x bs, x ≡ rep bases msgs (List.range msgs.length) [ZMOD pk.N] ∧
         powMod pk.b σ.s pk.N = some bs ∧ σ.v ^ σ.e.toNat % pk.N = tmod (x * bs * pk.c) pk.N := by
   unfold verifyMultiattr at h
@@ -1651,6 +1668,9 @@ theorem verifyMultiattr_true_elim (hA : ArithOK) {cs : Suite} {σ : Signature} {
   split at h
   · simp only [pure_ok_iff] at h; exact absurd h.1 (by decide)
   rename_i he
+  split at h
+  · simp only [pure_ok_iff] at h; exact absurd h.1 (by decide)
+  rename_i hvr
   simp only [pure_ok_iff, beq_iff_eq] at h
   have hm : ∀ m ∈ msgs, 0 ≤ m ∧ m < 2 ^ cs.lm := by
     intro m hmm
@@ -1666,7 +1686,7 @@ theorem verifyMultiattr_true_elim (hA : ArithOK) {cs : Suite} {σ : Signature} {
   simp only [CRes.ok.injEq, Prod.mk.injEq] at hx
   obtain ⟨rfl, rfl⟩ := hx
   rw [hA.powMod_nonneg _ _ _ hN he0] at hl
-  refine ⟨by omega, hm, he', P, bs, by simpa [List.range_eq_range'] using hxe, hbs, ?_⟩
+  refine ⟨by omega, hm, he', by omega, P, bs, by simpa [List.range_eq_range'] using hxe, hbs, ?_⟩
   rw [Option.some.inj hl]; exact h.1
 
 /-- **A signature accepted for two attribute vectors** yields `Π a_i^{m_i} ≡ Π a_i^{m'_i} (mod N)`
@@ -1677,8 +1697,8 @@ theorem verify_two_vectors (hA : ArithOK) {cs : Suite} {σ : Signature} {pk : Pu
     (h₁ : verifyMultiattr cs σ pk bases m₁ t₁ = .ok (true, t₁'))
     (h₂ : verifyMultiattr cs σ pk bases m₂ t₂ = .ok (true, t₂')) :
     rep bases m₁ (List.range m₁.length) ≡ rep bases m₂ (List.range m₂.length) [ZMOD pk.N] := by
-  obtain ⟨-, -, -, x₁, bs₁, hx₁, hb₁, he₁⟩ := verifyMultiattr_true_elim hA h₁
-  obtain ⟨-, -, -, x₂, bs₂, hx₂, hb₂, he₂⟩ := verifyMultiattr_true_elim hA h₂
+  obtain ⟨-, -, -, -, x₁, bs₁, hx₁, hb₁, he₁⟩ := verifyMultiattr_true_elim hA h₁
+  obtain ⟨-, -, -, -, x₂, bs₂, hx₂, hb₂, he₂⟩ := verifyMultiattr_true_elim hA h₂
   rw [hb₁] at hb₂
   obtain rfl := Option.some.inj hb₂
   have hu : IsCoprime (bs₁ * pk.c) pk.N := (powMod_unit hA hN hbu hb₁).mul_left (cop_iff.1 hcu)
